@@ -32,7 +32,7 @@ Verdict(v) ==
   ELSE LET want == Expected(v.arrivals) got == Returned(v.result) IN
        IF Len(v.result) # Cardinality(got) THEN "C18: the same device was reported more than once"
        ELSE IF \E d \in got : \E e \in got : d # e /\ d.ip = e.ip THEN "C18: two devices reported for one address"
-       ELSE IF \E d \in want : \A e \in got : e.ip # d.ip THEN "C18: a host with a well-formed reply is missing from the result"
+       ELSE IF \E d \in want : \A e \in got : e.ip # d.ip THEN "C17/C18: a host with a well-formed reply is missing from the result"
        ELSE IF \E e \in got : \A d \in want : d.ip # e.ip THEN "C18: a device was reported for a host whose deciding reply was not well-formed"
        ELSE IF got # want THEN
             LET e == CHOOSE e \in got : e \notin want
